@@ -7,6 +7,8 @@ import (
 	"encoding/json"
 	"fmt"
 	"strconv"
+	"strings"
+	"unicode/utf8"
 )
 
 // Val is one SQL value, exact: NULL, 64-bit integer, byte string, boolean.
@@ -157,7 +159,7 @@ type Stmt struct {
 type Op struct {
 	ID   int    `json:"id"`
 	K    string `json:"k"`
-	SQL  string `json:"sql,omitempty"`
+	SQL  Text   `json:"sql,omitempty"`
 	Stmt *Stmt  `json:"stmt,omitempty"`
 	Dir  string `json:"dir,omitempty"`
 	DB   string `json:"db,omitempty"`
@@ -298,4 +300,32 @@ type NStmt struct {
 	Sets      []NSet    `json:"sets,omitempty"`
 	Defs      []ColDef  `json:"defs,omitempty"`
 	Other     string    `json:"other,omitempty"` // anything the converter could not classify
+}
+
+// Text is a byte string that survives JSON even when it is not valid UTF-8.
+type Text string
+
+const hexMark = "\x00\x01HEX:"
+
+func (t Text) MarshalJSON() ([]byte, error) {
+	if utf8.ValidString(string(t)) && !strings.HasPrefix(string(t), hexMark) {
+		return json.Marshal(string(t))
+	}
+	return json.Marshal(hexMark + hex.EncodeToString([]byte(t)))
+}
+
+func (t *Text) UnmarshalJSON(b []byte) error {
+	var s string
+	if err := json.Unmarshal(b, &s); err != nil {
+		return err
+	}
+	if strings.HasPrefix(s, hexMark) {
+		raw, err := hex.DecodeString(s[len(hexMark):])
+		if err != nil {
+			return err
+		}
+		s = string(raw)
+	}
+	*t = Text(s)
+	return nil
 }
